@@ -129,7 +129,11 @@ def handle (cmd : String) (j : J) : Except String J :=
       ("seq_index", J.arr ((List.range (g.length + 1)).map fun i => J.num (Gapped.seqIndex g i))),
       ("align_index", J.arr ((List.range (Gapped.seqLen g)).map fun k => J.num (Gapped.alignIndex g k))),
       ("reversed", gappedJ (Gapped.reversed g)),
-      ("runs", J.arr ((Gapped.gapRuns g).map fun p => J.arr [J.num p.1, J.num p.2]))])
+      ("runs", J.arr ((Gapped.gapRuns g).map fun p => J.arr [J.num p.1, J.num p.2])),
+      -- the spec functions of add_spec / mul_spec / gap_lengths_spec / merge_spec (second operand: the reversed pattern)
+      ("concat", gappedJ (Gapped.concat g (Gapped.ofPattern s.reverse))),
+      ("scaled", J.arr ([0, 1, 2, 3].map fun k => gappedJ (Gapped.scaled g k))),
+      ("gaps_before", J.arr ((List.range (Gapped.seqLen g + 2)).map fun k => J.num (Gapped.gapsBefore g k)))])
   | "fmap" => do
     -- feature map algebra
     let m ← parseFMap (← j.get "m")
